@@ -66,7 +66,7 @@ func eval(c Case) *pbt.Fail {
 }
 
 func genCase(rt *rapid.T) Case {
-	f := gen.GenExif(rt, gen.Options{Unbuffered: true, Split: true, MaxForeign: 4})
+	f := gen.GenExif(rt, gen.Options{Unbuffered: true, Split: true, MaxForeign: 4, Arrays: true})
 	c := Case{Rec: f.Rec, Ctx: exifcheck.CtxOf(f), Embeds: gen.Embed(rt, f), First: f.FirstIFD, Order: f.Enc.BlockOrder}
 	cls := append([]string{}, f.Classes...)
 	rec.Case(f.NonTrivial(), ev.Hash(f.Enc.II, c.Embeds[1].II), cls...)
